@@ -242,6 +242,26 @@ def storm_scenario(sid, mn, mx, rng, n=600):
     return sc
 
 
+def burst_scenario(sid, mn, mx, rounds):
+    """rounds x (max requests held inside their first rule until all are there, then released at the same instant): instances are
+    handed back simultaneously, thousands of times; afterwards every instance must be back and max requests must still fit"""
+    rules = rules_v(1)
+    names = [r["name"] for r in rules]
+    sc = {"id": sid, "min": mn, "max": mx, "model": 1, "rules": rules, "steps": []}
+    sc["steps"].append({"op": "burst", "id": sid * 10000000, "n": rounds, "m": mx})
+    sc["steps"].append({"op": "snapshot", "probe": names, "_active": [], "_done": []})
+    rid, held = sid * 1000, []
+    for _ in range(mx):
+        rid += 1
+        held.append(rid)
+        sc["steps"].append(req_step(rid, "Execute", names, hold_at="*"))
+    sc["steps"].append({"op": "snapshot", "probe": names, "_active": list(held), "_done": []})
+    for q in held:
+        sc["steps"].append({"op": "release", "id": q})
+    sc["steps"].append({"op": "snapshot", "probe": names, "_active": [], "_done": list(held)})
+    return sc
+
+
 def cap_checks(tag, scenarios, obs):
     """Returns (mismatches [(scenario id, code)], counts). Codes: Pool/Check.v check_cap (1-6) and check_req (11-13);
     7 = a request never finished (waiter starved / instance lost); 8 = scenario crashed the process."""
